@@ -143,6 +143,12 @@ class Ctx:
 	def rng(self, name):
 		return random.Random("%s/%d/%s/%d" % (self.prop, self.seed, name, self.shard[0]))
 
+	def case_rng(self, name, idx):
+		""" An independent generator per generated case, so that one case can be replayed alone.
+		    Witnesses recorded while it is current carry the coordinates needed for that. """
+		self.current_case = {"workload": name, "index": idx, "shard": list(self.shard), "seed": self.seed, "tier": self.tier}
+		return random.Random("%s/%d/%s/%d/%d" % (self.prop, self.seed, name, self.shard[0], idx))
+
 	# ---- observation -----------------------------------------------------
 	def count(self, key, n = 1):
 		self.counters[key] += n
@@ -170,6 +176,8 @@ class Ctx:
 		    on *why* it fails (None = unclassified).  It is matched against
 		    the committed known-findings file. """
 		known = mechanism is not None and self.known.is_open(self.prop, mechanism)
+		if getattr(self, "current_case", None) and isinstance(witness, dict) and "_case" not in witness:
+			witness = dict(witness, _case = dict(self.current_case))
 		self.count("violation_witnesses")
 		self.count("witness:%s" % (mechanism or "unclassified"))
 		if len(self.violations) < self.max_violations or \
@@ -196,6 +204,7 @@ class Ctx:
 
 	# ---- partial results (shards) -----------------------------------------
 	def to_partial(self):
+		self.absorb_build_stats()
 		return {
 			"counters": dict(self.counters),
 			"evaluations": self.evaluations,
@@ -243,8 +252,17 @@ class Ctx:
 				else (self.exhaustive and p["exhaustive"])
 
 	# ---- verdict -----------------------------------------------------------
+	def absorb_build_stats(self):
+		cb = sys.modules.get("vf.cbuild")
+		if cb is not None:
+			for k, v in cb.STATS.items():
+				if v:
+					self.count(k, v)
+					cb.STATS[k] = 0
+
 	def finish(self):
 		""" Write evidence, print verdict lines, return the exit code. """
+		self.absorb_build_stats()
 		unknown = [v for v in self.violations if not v["known"]]
 		known = [v for v in self.violations if v["known"]]
 
@@ -430,3 +448,19 @@ def quiet_logging():
 		root.removeHandler(h)
 	root.addHandler(logging.NullHandler())
 	root.setLevel(logging.CRITICAL + 1)
+
+
+def replay_case(ctx, data, workloads):
+	""" Re-run exactly the generated case a witness came from.  workloads: name -> callable(ctx, rng, index). """
+	c = data.get("witness", {}).get("_case")
+	if not c or c.get("workload") not in workloads:
+		return False
+	ctx.seed = c["seed"]
+	ctx.tier = c["tier"]
+	ctx.shard = tuple(c["shard"])
+	r = ctx.case_rng(c["workload"], c["index"])
+	ctx.rule = "replay of generated case %s #%d (seed %d, tier %s, shard %d/%d)" % (c["workload"], c["index"], c["seed"], c["tier"], c["shard"][0], c["shard"][1])
+	workloads[c["workload"]](ctx, r, c["index"])
+	ctx.seen(("replay", 1)); ctx.seen(("replay", 2))
+	ctx.requirements = {}
+	return True
